@@ -123,32 +123,33 @@ class WalkInterp(Interp):
         return None
 
 
-def initial_state(repo, interp, cls='CoderState', is_compressed=False):
-    """Register file of a fresh state, read off CoderState.__init__ (top-level constant assignments)."""
+def fold_init(repo, is_compressed=False, n_subsets=1, values=None):
+    """CoderState.__init__ folded by PathEval; returns the state objects of all non-raising paths (the logging-level test forks)."""
     init = repo.own_method('CoderState', '__init__')
-    fields = {}
-    frame = Frame(init, init.module, cls, 0)
-    frame.locals.update({'is_compressed': is_compressed, 'n_subsets': 1, 'decoded_values_all_subsets': None})
-    from sa.patheval import Path
-    saved = interp.path
-    interp.path = Path([])
-    for s in init.node.body:
-        if isinstance(s, ast.Assign) and len(s.targets) == 1 and isinstance(s.targets[0], ast.Attribute) \
-                and isinstance(s.targets[0].value, ast.Name) and s.targets[0].value.id == 'self':
-            attr = s.targets[0].attr
-            if attr in REGISTERS or attr in ('idx_value', 'idx_subset', 'is_compressed', 'n_subsets'):
-                if isinstance(s.value, ast.Call) and norm(s.value.func) == 'BSRModifier':
-                    kw = dict((k.arg, ast.literal_eval(k.value)) for k in s.value.keywords)
-                    fields[attr] = Obj('BSRModifier', kw)
-                else:
-                    try:
-                        fields[attr] = interp.ev(s.value, frame)
-                    except Exception:
-                        fields[attr] = Top('init')
-    interp.path = saved
+    it = WalkInterp(repo, 'Decoder')
+    res = it.run_function(init, lambda: {'self': Obj('CoderState', {}), 'is_compressed': is_compressed, 'n_subsets': n_subsets,
+                                         'decoded_values_all_subsets': values}, self_class='CoderState')
+    out = [r.locals['self'] for r in res if r.ok]
+    if not out:
+        raise AnalysisError('CoderState.__init__ could not be folded: %s' % [r.describe() for r in res])
+    return out
+
+
+def initial_state(repo, interp, cls='CoderState', is_compressed=False):
+    """Register file of a fresh state: CoderState.__init__ folded (first non-raising path)."""
+    st = fold_init(repo, is_compressed, 1)[0]
+    fields = dict((k, v) for k, v in st.fields.items() if k in REGISTERS or k in ('idx_value', 'idx_subset', 'is_compressed', 'n_subsets'))
     missing = [r for r in REGISTERS if r not in fields]
     if missing:
         raise AnalysisError('CoderState.__init__ no longer initialises register(s) %s' % ', '.join(missing))
+    # fresh copies of containers so that runs do not share objects
+    for k, v in list(fields.items()):
+        if isinstance(v, list):
+            fields[k] = list(v)
+        elif isinstance(v, dict):
+            fields[k] = dict(v)
+        elif isinstance(v, Obj):
+            fields[k] = Obj(v.cls, dict(v.fields))
     return fields
 
 
